@@ -26,16 +26,19 @@ RULE = ('Linen: all filter terms of nesting depth <= d over atoms {True, False, 
         'are not both constants (Linen) / the filter tuple splits the variables into >= 2 '
         'non-empty groups (NNX); distinct by canonical text of the case')
 ASSUMPTIONS = [
-  "names not mentioned by a filter term are interchangeable ('zz' represents them)",
+  "names not mentioned by a filter term are interchangeable ('zz' represents them); 'ab' / 'aba' "
+  "cover names related to a mentioned name by containment",
   'nested containers inside a name collection are not filters (in_filter tests membership only)',
 ]
 
-UNIVERSE = ('a', 'b', 'c', 'zz')
+UNIVERSE = ('a', 'b', 'c', 'zz', 'ab', 'aba')
 
 # ---------------------------------------------------------------- Linen terms
 # JSON-able: True | False | 'a' | ['tuple'|'list'|'set', names...] | {'deny': t}
 ATOMS = [True, False, 'a', 'b', ['tuple'], ['tuple', 'a'], ['tuple', 'a', 'b'],
-         ['list', 'b', 'c'], ['set', 'a', 'c']]
+         ['list', 'b', 'c'], ['set', 'a', 'c'],
+         # a name that contains / is contained in other names of the universe
+         'ab', ['tuple', 'ab']]
 
 
 def terms(depth):
